@@ -29,7 +29,7 @@ def qfield(e):
 def check(run, prog, tier):
     run.rule("C19-a", "async_queue: every access to a mutable queue field or to a buffer slot is inside the queue mutex; no return with the mutex held; the blocking wait is bracketed by unlock/lock", 10)
     run.rule("C19-b", "variables written by a thread root's closure (timer thread, worker thread) and accessed by the backend's closure are atomic or accessed under a common lock", 2)
-    run.rule("C19-c", "the wake-up eventfd is a plain counter (no EFD_SEMAPHORE): every write to it must be the constant 1, otherwise concurrent posts add up into a wrong key/data", 2)
+    run.rule("C19-c", "the wake-up channel keeps notifications apart: an eventfd is a plain counter (no EFD_SEMAPHORE), so every write to it must be the constant 1 - a payload written to it adds up with the next one into a wrong key/data; a pipe carries records, each of which must be one write() of a constant size <= PIPE_BUF", 2)
 
     q = prog.unit("lib/async/async_queue.c")
     qfuncs = [f for f in q.funcs.values() if f.file.endswith("async_queue.c")]
@@ -157,11 +157,26 @@ def check(run, prog, tier):
         run.need(False, "lib/async/async_runtime_epoll.c in the build")
     efuncs = [f for f in ep.funcs.values() if f.file.endswith("async_runtime_epoll.c")]
     creates = [(f, n) for f in efuncs for b, i, n in f.calls("eventfd")]
-    run.need(creates, "eventfd() creation")
+    pipes = [(f, n) for f in efuncs for b, i, n in f.calls() if n.get("fn") in ("pipe", "pipe2")]
+    run.need(creates or pipes, "creation of the wake-up channel (eventfd() or pipe())")
+    # the field of the runtime record that holds the channel
+    chan = "event_fd"
+    if not creates:
+        chan = sorted({x.get("f") for f, n in pipes for x in walk(n["args"][0]) if x.get("k") == "Mem"} or {"notify_pipe"})[0]
     sem = any(facts.any_in_macro(n["args"][1], "EFD_SEMAPHORE") for f, n in creates)
     for f in efuncs:
         for b, i, n in f.calls("write"):
-            if "event_fd" not in show(n["args"][0]):
+            if chan not in show(n["args"][0]):
+                continue
+            if not creates:
+                # a pipe keeps records apart as long as each record is one write() of at most PIPE_BUF bytes
+                run.saw(f)
+                sz = const_val(n["args"][2]) if len(n.get("args", [])) > 2 else None
+                others = [n2 for b2, i2, n2 in f.calls("write") if n2 is not n and chan in show(n2["args"][0])]
+                okp = sz is not None and 0 < sz <= 512 and not others
+                run.ob("C19-c", "pipe-write:%s" % f.name, okp, "one write() of %s bytes per record into the notification pipe: atomic (<= PIPE_BUF), records of concurrent posters stay separate" % sz if okp else
+                       "the record is not written by a single write() of a constant size <= PIPE_BUF (size %s, %d other write(s) in the function): records of concurrent posters can interleave" % (sz, len(others)),
+                       f.file, n.get("l"), f.name, what="%s writes a notification record that concurrent posts can tear" % f.name)
                 continue
             run.saw(f)
             # value written: &val -> val's initialiser / assignment
@@ -232,7 +247,7 @@ def check(run, prog, tier):
     run.need(wk, "async_runtime_wakeup")
     wk = wk[0]
     run.saw(wk)
-    wcalls = [b.id for b, i, n in wk.calls("write") if n.get("args") and "event_fd" in show(n["args"][0])]
+    wcalls = [b.id for b, i, n in wk.calls("write") if n.get("args") and chan in show(n["args"][0])]
     run.need(wcalls, "write to the eventfd in async_runtime_wakeup")
     okrets = [b.id for b, i, n in wk.nodes() if n.get("k") == "Return" and n.get("e") is not None and not (const_val(n["e"]) is not None and const_val(n["e"]) < 0)]
     p = wk.reach_avoiding([wk.entry], lambda blk: blk.id in okrets, avoid_blocks=wcalls)
@@ -246,11 +261,11 @@ def check(run, prog, tier):
             if c is None:
                 continue
             for x in walk(c):
-                if x.get("k") == "Mem" and x.get("f") not in ("event_fd", "epoll_fd"):
+                if x.get("k") == "Mem" and x.get("f") not in ("event_fd", "epoll_fd", chan):
                     flags.add(x.get("f"))
         bad = []
         for f in efuncs:
-            reads = [(b.id, i) for b, i, n in f.calls("read") if n.get("args") and "event_fd" in show(n["args"][0])]
+            reads = [(b.id, i) for b, i, n in f.calls("read") if n.get("args") and chan in show(n["args"][0])]
             for b, i, n in f.nodes():
                 clear = None
                 if n.get("k") == "Call" and n.get("fn") in ("atomic_store", "atomic_store_explicit", "__c11_atomic_store", "atomic_exchange", "__c11_atomic_exchange") and len(n.get("args", [])) >= 2 and const_val(n["args"][1]) == 0:
